@@ -183,6 +183,9 @@ Proof.
 Qed.
 
 (* ---------- the loop over `unmatched`: only a set operation can fail ---------- *)
+(* Q: any property of the set that pop and discard keep (used below with the table invariants of EncProbe.v) *)
+Definition set_err_q (Q : pyset -> Prop) (e : exn) : Prop :=
+  (exists s, Q s /\ SI s /\ ps_nonempty s = true /\ ps_pop s = Err e) \/ (exists k s, Q s /\ ps_discard k s = Err e).
 Definition set_err (e : exn) : Prop := (exists s, ps_pop s = Err e) \/ (exists k s, ps_discard k s = Err e).
 
 Lemma ps_pop_used s k s' : ps_pop s = Ok (k, s') -> S (ps_used s') = ps_used s.
@@ -193,12 +196,13 @@ Qed.
 Lemma ps_discard_used key s s' : ps_discard key s = Ok s' -> ps_used s' <= ps_used s.
 Proof. unfold ps_discard. destruct (look_probe _ _ _ _ _ _) as [[j|]|]; cbn [bind]; try discriminate; intro H; inversion H; subst; cbn [ps_used]; lia. Qed.
 
-Lemma augment_total g (GR : forall i li j, nth_error g i = Some li -> In j li -> j < length g) : forall fuel m u, AJ g m u -> ps_used u < fuel ->
-  match augment_loop pyset ps_nonempty ps_pop ps_discard fuel g m u with Ok _ => True | Err e => set_err e end.
+Lemma augment_total_q (Q : pyset -> Prop) (Qpop : forall s k s', Q s -> ps_pop s = Ok (k, s') -> Q s') (Qdis : forall s k s', Q s -> ps_discard k s = Ok s' -> Q s')
+  g (GR : forall i li j, nth_error g i = Some li -> In j li -> j < length g) : forall fuel m u, AJ g m u -> Q u -> ps_used u < fuel ->
+  match augment_loop pyset ps_nonempty ps_pop ps_discard fuel g m u with Ok _ => True | Err e => set_err_q Q e end.
 Proof.
-  induction fuel as [|f IH]; intros m u [Hm Hs Hu Hl Hin Hout] Hfu; [lia|]. cbn [augment_loop].
+  induction fuel as [|f IH]; intros m u [Hm Hs Hu Hl Hin Hout] HQ Hfu; [lia|]. cbn [augment_loop].
   destruct (ps_nonempty u) eqn:En; cbn [negb]; [|exact I].
-  destruct (ps_pop u) as [[root u1]|e] eqn:Epop; cbn [bind]; [|left; eauto].
+  destruct (ps_pop u) as [[root u1]|e] eqn:Epop; cbn [bind]; [|left; exists u; auto].
   destruct (ps_pop_full _ _ _ Hu Hl Epop) as (U1 & L1 & Nr1 & Mr). destruct (ps_pop_spec _ _ _ Hs Epop) as [S1 K1].
   pose proof (Hout root Mr) as Hfree. assert (Hroot : root < length g) by (rewrite <- (mr_len _ _ Hm); apply nth_error_Some; congruence).
   pose proof (find_path_safe g GR root m Hm Hroot Hfree) as FP. pose proof (find_path_spec g root m) as FS.
@@ -209,11 +213,14 @@ Proof.
   destruct (flip_safe g path m Pp ltac:(rewrite (mr_len _ _ Hm); exact Hrng)) as [m' Efl]. rewrite Efl. cbn [bind].
   destruct path as [|p0 rest] eqn:Epath; [destruct Pr|]. cbn [get nth_error bind].
   destruct (get_ok (p0 :: rest) (length (p0 :: rest) - 1) ltac:(cbn [length]; lia)) as (pl & Egl & Hnl). rewrite Egl. cbn [bind].
-  destruct (ps_discard p0 u1) as [u2|e] eqn:Ed2; cbn [bind]; [|right; eauto].
-  destruct (ps_discard pl u2) as [u3|e] eqn:Ed3; cbn [bind]; [|right; eauto].
+  pose proof (Qpop _ _ _ HQ Epop) as Q1.
+  destruct (ps_discard p0 u1) as [u2|e] eqn:Ed2; cbn [bind]; [|right; exists p0, u1; auto].
+  pose proof (Qdis _ _ _ Q1 Ed2) as Q2.
+  destruct (ps_discard pl u2) as [u3|e] eqn:Ed3; cbn [bind]; [|right; exists pl, u2; auto].
+  pose proof (Qdis _ _ _ Q2 Ed3) as Q3.
   destruct (ps_discard_full _ _ _ U1 L1 Ed2) as (U2 & L2 & N2). destruct (ps_discard_spec _ _ _ S1 Ed2) as [S2 K2].
   destruct (ps_discard_full _ _ _ U2 L2 Ed3) as (U3 & L3 & N3). destruct (ps_discard_spec _ _ _ S2 Ed3) as [S3 K3].
-  apply IH; [|pose proof (ps_pop_used _ _ _ Epop); pose proof (ps_discard_used _ _ _ Ed2); pose proof (ps_discard_used _ _ _ Ed3); lia].
+  apply IH; [|exact Q3|pose proof (ps_pop_used _ _ _ Epop); pose proof (ps_discard_used _ _ _ Ed2); pose proof (ps_discard_used _ _ _ Ed3); lia].
   constructor; [exact (flip_mr g GR _ _ _ Hm Hrng Efl)|exact S3|exact U3|exact L3| |].
   - intros i Hi.
     assert (Np : ~ In i (p0 :: rest)).
@@ -227,6 +234,14 @@ Proof.
     { intro Hin'. rewrite Forall_forall in Hpn. destruct (Hpn i Hin') as [_ [->|[->|[y Hy]]]]; [contradiction| |congruence].
       cbn [hd_error] in Hhd. inversion Hhd; subst p0. exact (N2 H2). }
     rewrite (flip_outside _ _ _ _ Efl Np). exact Hnone.
+Qed.
+
+Lemma augment_total g (GR : forall i li j, nth_error g i = Some li -> In j li -> j < length g) : forall fuel m u, AJ g m u -> ps_used u < fuel ->
+  match augment_loop pyset ps_nonempty ps_pop ps_discard fuel g m u with Ok _ => True | Err e => set_err e end.
+Proof.
+  intros fuel m u Ha Hf. pose proof (augment_total_q (fun _ => True) (fun _ _ _ _ _ => I) (fun _ _ _ _ _ => I) g GR fuel m u Ha I Hf) as A.
+  destruct (augment_loop pyset ps_nonempty ps_pop ps_discard fuel g m u) as [r|e]; [exact I|].
+  destruct A as [(s & _ & _ & _ & H)|(k & s & _ & H)]; [left; eauto|right; eauto].
 Qed.
 
 (* ---------- assembled ---------- *)
